@@ -108,6 +108,9 @@ func (v DenseInt8Vector) ReverseOrder() {
   }
 }
 func (v DenseInt8Vector) Slice(i, j int) Vector {
+  if i < 0 || j > len(v) || i > j {
+    panic("Slice(): range is out of bounds")
+  }
   return v[i:j]
 }
 func (v DenseInt8Vector) Swap(i, j int) {
@@ -161,6 +164,9 @@ func (v DenseInt8Vector) ConstAt(i int) ConstScalar {
   return Int8{&v[i]}
 }
 func (v DenseInt8Vector) ConstSlice(i, j int) ConstVector {
+  if i < 0 || j > len(v) || i > j {
+    panic("Slice(): range is out of bounds")
+  }
   return v[i:j]
 }
 func (v DenseInt8Vector) AsConstMatrix(n, m int) ConstMatrix {
